@@ -650,6 +650,48 @@ func (e *Exec) Do(op Op) Resp {
 			r.Note = err.Error()
 		}
 		return r
+	case "ProbeAll":
+		// reads everything the directory of the repository lists (index entries by digest and tag, their blobs,
+		// referrers of every digest): forces index loading and referrer conversion on pre-existing content
+		r := Resp{Status: 200, Off: -1, StOff: -1, Len: 0, Codes: []string{}, List: []string{}, ErrDoc: "none"}
+		if e.Srv.Root == "" {
+			return r
+		}
+		b, err := os.ReadFile(filepath.Join(e.Srv.Root, repo, "index.json"))
+		var idx types.Index
+		if err != nil || json.Unmarshal(b, &idx) != nil {
+			hr := e.Srv.Do("GET", base+"/tags/list", nil, nil, true, "")
+			r.Note = fmt.Sprintf("index unreadable, tags/list=%d", hr.Status)
+			if hr.Status >= 500 || hr.Panic != "" || hr.Hung {
+				r.Status = 500
+			}
+			return r
+		}
+		acc := e.acceptHeader("all", "")
+		worst := 0
+		do := func(m, t string, h map[string]string) {
+			hr := e.Srv.Do(m, t, h, nil, true, "")
+			r.Len++
+			if hr.Panic != "" || hr.Hung {
+				r.Panic = true
+			}
+			if hr.Status > worst {
+				worst = hr.Status
+			}
+		}
+		do("GET", base+"/tags/list", nil)
+		for _, m := range idx.Manifests {
+			do("GET", base+"/manifests/"+m.Digest.String(), acc)
+			do("GET", base+"/blobs/"+m.Digest.String(), nil)
+			do("GET", base+"/referrers/"+m.Digest.String(), nil)
+			if m.Annotations != nil && m.Annotations[types.AnnotRefName] != "" {
+				do("GET", base+"/manifests/"+m.Annotations[types.AnnotRefName], acc)
+			}
+		}
+		if worst >= 500 {
+			r.Status = worst
+		}
+		return r
 	case "Reconf":
 		// close the server and open a new one with another configuration / store kind on the same directory
 		err := e.Srv.S.Close()
